@@ -23,6 +23,15 @@ def main():
     a = ap.parse_args()
     tier = a.tier if a.tier in ("quick", "thorough") else "quick"
     seed = int(os.environ.get("VERIF_SEED", "1") or "1")
+    if a.replay:
+        # a replay re-creates the run that produced the file: same seed, same tier
+        try:
+            import json
+            rj = json.load(open(a.replay))
+            seed = int(rj.get("seed", seed))
+            tier = rj.get("tier", tier) if rj.get("tier") in ("quick", "thorough") else tier
+        except Exception:
+            pass
     pid = a.pid.upper()
     chk = common.Check(pid, tier, seed)
     try:
